@@ -19,6 +19,7 @@ import (
 func (process *Process) SpawnThenTransition(re *RuntimeEnvironment) {
 	// Increment ProcessCount atomically
 	atomic.AddUint64(&re.processCount, 1)
+	vhSpawn(re, process)
 
 	if re.UseMonitor {
 		// notify monitor about new process
@@ -30,6 +31,7 @@ func (process *Process) SpawnThenTransition(re *RuntimeEnvironment) {
 
 // Entry point for each process transition
 func (process *Process) transitionLoop(re *RuntimeEnvironment) {
+	vhStep(re, process)
 	re.logProcessf(LOGPROCESSING, process, "Process transitioning: %s\n", process.Body.String())
 
 	// Send heartbeat
@@ -39,6 +41,7 @@ func (process *Process) transitionLoop(re *RuntimeEnvironment) {
 	time.Sleep(re.Delay)
 
 	process.Body.Transition(process, re)
+	vhIdle(re, process)
 }
 
 // When a process starts transitioning, a process chooses to transition as one of these forms:
@@ -58,7 +61,9 @@ func TransitionBySending(process *Process, toChan chan Message, continuationFunc
 		case <-re.ctx.Done():
 			return
 		default:
+			vhBlock(re, process, 1, toChan, nil, nil)
 			toChan <- sendingMessage
+			vhUnblock(re, process, 0)
 			continuationFunc()
 		}
 	}
@@ -73,11 +78,14 @@ func TransitionByReceiving(process *Process, clientChan chan Message, processMes
 		// Split process if needed
 		process.performDUPrule(re)
 	} else {
+		vhBlock(re, process, 2, clientChan, nil, nil)
 		select {
 		case <-re.ctx.Done():
 			// Received cancellation request, then stop
 			return
 		case receivedMessage := <-clientChan:
+			vhUnblock(re, process, 0)
+			vhRecv(re, process, &receivedMessage)
 			// Blocks until a message arrives (may be a FWD request)
 
 			// Process acting as a client by consuming a message from some channel
@@ -642,7 +650,9 @@ func (f *ForwardForm) Transition(process *Process, re *RuntimeEnvironment) {
 		// ACTIVE
 
 		message := Message{Rule: FWD, Providers: process.Providers}
+		vhBlock(re, process, 1, f.from_c.Channel, nil, nil)
 		f.from_c.Channel <- message
+		vhUnblock(re, process, 0)
 		re.logProcessf(LOGRULE, process, "[forward, client] sent FWD request to client %s\n", f.from_c.String())
 
 		// todo check if this is needed: process.finishedRule(FWD, "[forward, client]", "", re)
@@ -654,7 +664,10 @@ func (f *ForwardForm) Transition(process *Process, re *RuntimeEnvironment) {
 		// PASSIVE: wait before acting
 
 		// Blocks until it received a message
+		vhBlock(re, process, 2, f.from_c.Channel, nil, nil)
 		message := <-f.from_c.Channel
+		vhUnblock(re, process, 0)
+		vhRecv(re, process, &message)
 		re.logProcessf(LOGRULE, process, "[forward, +ve] received message on %s. Will become a %s \n", f.from_c.String(), RuleString[message.Rule])
 
 		// todo: maybe instead of recreating each process, what I can do is check how many providers the
@@ -703,7 +716,9 @@ func (f *ForwardForm) Transition(process *Process, re *RuntimeEnvironment) {
 		// ACTIVE
 
 		message := Message{Rule: GC}
+		vhBlock(re, process, 1, f.from_c.Channel, nil, nil)
 		f.from_c.Channel <- message
+		vhUnblock(re, process, 0)
 		re.logProcessf(LOGRULE, process, "[droppable forward, client] sent GC request to client %s\n", f.from_c.String())
 
 		process.terminateForward(re)
@@ -713,7 +728,10 @@ func (f *ForwardForm) Transition(process *Process, re *RuntimeEnvironment) {
 		// PASSIVE: wait before acting
 
 		// Blocks until it received a message. Then this message will be dropped
+		vhBlock(re, process, 2, f.from_c.Channel, nil, nil)
 		message := <-f.from_c.Channel
+		vhUnblock(re, process, 0)
+		vhRecv(re, process, &message)
 		re.logProcessf(LOGRULE, process, "[droppable forward, +ve] received message on %s [%s]. This message will be dropped \n", f.from_c.String(), RuleString[message.Rule])
 
 		// Need to handle any clients (aka free names) that will be dropped as a result,
@@ -991,6 +1009,7 @@ func (f *PrintForm) Transition(process *Process, re *RuntimeEnvironment) {
 		if !re.Quiet {
 			fmt.Printf("> %s\n", f.label.String())
 		}
+		vhPrint(re, process, f.label.String())
 
 		process.finishedRule(PRINT, "[print]", "", re)
 
